@@ -361,6 +361,11 @@ def unwrap(v, t):
     if k == "map":
         c, _, _ = map_parts(sort_of(t))
         return c(v.dom, v.val)
+    if k == "strseq" and isinstance(v, VTuple):
+        z = z3.Empty(StrSeq)
+        for x in v.items:
+            z = z3.Concat(z, z3.Unit(x.z))
+        return z
     if k == "tup":
         srt = sort_of(t)
         if not isinstance(v, VTuple) or len(v.items) != len(t[1]):
